@@ -39,17 +39,28 @@ def run(cmd, **kw):
 
 # ---------------------------------------------------------------- Coq side
 
-def build_coq():
-    """make under a lock; returns (ok, log)"""
+def build_coq(pid=None):
+    """make under a lock; returns (ok, log).  ok is about the files this
+    property needs (Props/<pid>.vo and Run/<pid>Run.vo), so one broken file
+    elsewhere does not take every check down."""
     os.makedirs(os.path.join(VERIF, "work"), exist_ok=True)
     with open(os.path.join(VERIF, "work", ".coq.lock"), "w") as lk:
         fcntl.flock(lk, fcntl.LOCK_EX)
+        run(["sh", os.path.join(VERIF, "tools", "gen_coqproject.sh")])
         if not os.path.exists(os.path.join(COQ, "Makefile")):
             r = run(["coq_makefile", "-f", "_CoqProject", "-o", "Makefile"], cwd=COQ)
             if r.returncode != 0:
                 return False, r.stdout
-        r = run(["timeout", "3000", "make", "-j16"], cwd=COQ)
-        return r.returncode == 0, r.stdout
+        r = run(["timeout", "3000", "make", "-k", "-j16"], cwd=COQ)
+        if pid is None:
+            return r.returncode == 0, r.stdout
+        ok = True
+        for rel in ("Props/%s.v" % pid, "Run/%sRun.v" % pid):
+            src = os.path.join(COQ, rel)
+            vo = src + "o"
+            if os.path.exists(src) and not (os.path.exists(vo) and os.path.getmtime(vo) >= os.path.getmtime(src)):
+                ok = False
+        return ok, r.stdout
 
 
 def section_outside_ok(path):
@@ -228,7 +239,7 @@ def main():
 
 def check(a, pid, tier, work, t0):
     repo = os.path.abspath(a.repo)
-    ok, log = build_coq()
+    ok, log = build_coq(pid)
     coq_built = ok
     coq_log = log[-3000:]
     bad = hygiene()
